@@ -444,7 +444,15 @@ func runC12(c *Checker) {
 					why = fmt.Sprintf("WaitGroup-tracked goroutine is malformed (deferred Done:%v, waited somewhere:%v, Done before Close in the deferred function:%v)", done, waited, doneFirst)
 				}
 				c.decide(okk, "LIFE", key, instrPos(g), why, why)
-				if namedOf(types.NewPointer(conn)) != nil && wgField == fWG {
+				// the two loop wrappers (the goroutines that run sendPacketsForever / receivePacketsForever)
+				isLoopWrapper := false
+				reach := w.ReachableSameGoroutine(entry)
+				for _, ln := range []string{"(*gbn.GoBackNConn).sendPacketsForever", "(*gbn.GoBackNConn).receivePacketsForever"} {
+					if lf := w.Func(ln); lf != nil && lf != fn && reach[lf] {
+						isLoopWrapper = true
+					}
+				}
+				if namedOf(types.NewPointer(conn)) != nil && wgField == fWG && isLoopWrapper {
 					c.decide(closeUncond, "EXIT", fmt.Sprintf("wrapper|%s|calls Close", fnName(entry)), instrPos(g),
 						"the loop wrapper calls Close() unconditionally when its loop returns", "a loop can end without closing the connection: the other loop and blocked callers are never woken")
 				}
